@@ -218,7 +218,7 @@ static i128 gen_rep(std::string* cls) {
 
 template <typename D>
 static void run_values(const char* tname, const vf::Args& a, int stream) {
-  long budget = a.budget(40000, 400000);
+  long budget = a.budget(100000, 400000);
   vf::rc_run(std::string("C18.value.") + tname, a.stream_seed(stream), (int)budget, *REP, [&]() {
     std::string cls;
     i128 v = gen_rep<D>(&cls);
@@ -243,7 +243,7 @@ static void run_values(const char* tname, const vf::Args& a, int stream) {
 
 template <typename D>
 static void run_parse(const char* tname, const vf::Args& a, int stream) {
-  long budget = a.budget(25000, 250000);
+  long budget = a.budget(60000, 250000);
   using P = typename D::period; using Rep = typename D::rep;
   vf::rc_run(std::string("C18.parse.") + tname, a.stream_seed(stream), (int)budget, *REP, [&]() {
     const i128 num = P::num, den = P::den;
